@@ -19,7 +19,8 @@ func init() {
 		"(3) CAPACITY: every DomainMatcher.AddSet used by the build pipelines bounds-checks its match-set index before indexing its per-set slices and records an error; LPM ring reservation rejects counts above the limit; " +
 		"(4) UNKNOWN: key/section lookups that miss, unsupported item types and missing required keys all flow to a non-nil error return; (5) INCLUDE: every file read is dominated by the circular-include, .dae-suffix, directory-containment tests, content is read only after the permission test, includes are merged after the including file in listed order; " +
 		"(6) PANICSET: the set of explicit panic() sites reachable (CHA call graph) from the configuration entry points equals the reviewed set. " +
-		"Not decided: the ANTLR grammar/runtime itself, reflection panics inside config.New beyond the listed sources, token fidelity."})
+		"(7) QUOTE: getValueFromLiteral folded over the finite table delimiter x edge-character class: a quoted value is the token text minus its two delimiters, a bare value the token text; (8) CONTAIN: EnsureFileInSubDir folded over the escaping relations (\"..\", \"../x\", …): every path returns an error. " +
+		"Not decided: the ANTLR grammar/runtime itself, reflection panics inside config.New beyond the listed sources, one-to-one order fidelity of the whole tree."})
 }
 
 func runC17(c *Ctx) {
@@ -29,6 +30,8 @@ func runC17(c *Ctx) {
 	c17Unknown(c)
 	c17Include(c)
 	c17PanicSet(c)
+	c17Quote(c)
+	c17Contain(c)
 }
 
 // onlyErrorReturns: every normal exit reachable from start is a return whose
